@@ -529,6 +529,8 @@ class Fn:
             return '%s.%s' % (b, n['name'])
         if k in ('call', 'construct'):
             cn = self.cname(n) or (('(' + f(n['fn']) + ')') if 'fn' in n else '?')
+            if cn in ('std::holds_alternative', 'std::get', 'std::get_if'):
+                cn += (self.sym(n) or {}).get('targs', '').split(',')[0].rstrip('>') + '>' if (self.sym(n) or {}).get('targs') else ''
             if k == 'construct':
                 cn = n.get('cls', cn)
             if 'op' in n and 'opargs' in n:
